@@ -19,6 +19,11 @@ CHECKS = [
         "Trusted: Kani/CBMC/Verus/Z3; DhtKey::distance contract assumed in Verus (proved on the real fn by Kani). Not decided: async reply construction in DhtNetworkManager, protocol caps inside async handle_request.",
         "Verus function contracts + loop invariant on extracted code; Kani proof harnesses with named postconditions inside the real crate",
         "DESIGN.md section 5 C02"),
+    chk("C12",
+        "Verus proves, on the verbatim text of validate_sequence_internal / apply_sequence_update / next_expected_sequence / PeerCounter::new, for histories of any length: Valid only for last+1 and never for a seen (number,hash); numbers <= last never accepted; gap/replay classification; apply sets last; plus induction lemmas over those contracts (accepted numbers are exactly 1,2,3..., each at most once). Kani proves the callee contract Verus assumes (has_seen_sequence, bounded history), the same postconditions over the full u64 domain (counterexample producer), cleanup keeps the acceptance state, and same-number-twice composition.",
+        "Assumed: std::sync::RwLock serialises the validate+apply critical section (sequential semantics per critical section); clock < 2^48 s; fewer than 2^64 accepts per peer. Not decided: concurrent submitters beyond the lock argument, reload from disk, the async wrappers themselves.",
+        "Verus contracts + induction lemmas on extracted code; Kani harnesses with named postconditions in the real crate",
+        "DESIGN.md section 5 C12"),
 ]
 
 _PENDING = "check under construction in this session (claimed in DESIGN.md; will move to checks when its obligations discharge)"
@@ -33,7 +38,6 @@ NOT_APPLICABLE = [
     {"property_id": "C09", "reason": _PENDING},
     {"property_id": "C10", "reason": "floating-point power iteration over HashMaps with data-dependent iteration count inside async methods on tokio locks; bounds on a float fixed point are outside both tools"},
     {"property_id": "C11", "reason": "quantitative statement about the limit of that iteration over all attack graphs up to 1000 nodes; no inductive invariant within reach"},
-    {"property_id": "C12", "reason": _PENDING},
     {"property_id": "C13", "reason": _PENDING},
     {"property_id": "C14", "reason": _PENDING},
     {"property_id": "C15", "reason": _PENDING},
